@@ -50,6 +50,23 @@ type Scenario struct {
 	// used by the client
 	CUser string `json:"cuser"`
 	CPass string `json:"cpass"`
+	// Delivery of the broker's bytes to the client (every reply of the connection, raw tokens and frames alike; see tap.Read):
+	//   whole (or empty): whatever is there; prefix: the 4-byte length prefix alone, then the rest of the message;
+	//   halves: length prefix + first half of the message, then the second half; pieces: DelivK bytes per Read.
+	Deliv  string `json:"deliv"`
+	DelivK int    `json:"delivk"`
+	// Overlapping authentications (entries dialovl | transportovl): OvN connections are authenticated at once through ONE
+	// Dialer / ONE Transport, i.e. with one sasl.Mechanism value (see overlap.go).
+	//   OvHold[k-1]: the step of connection k (0 handshake, i authenticate round i) whose answer the broker holds back until
+	//   connection k+1 has sent its first authentication bytes (OvMode start | lock) or has finished its dial (OvMode done);
+	//   lock: in addition the answer to the last connection's first authentication bytes waits until the connection before it
+	//   has consumed its released answer (sent its next request, closed, or its call returned).
+	OvN    int    `json:"ovn"`
+	OvHold []int  `json:"ovhold"`
+	OvMode string `json:"ovmode"`
+	// transportovl: "requests" (default): requests routed to brokers 1, 2, ... of one pool, each dials a connection of its own;
+	// "pools": one Client per bootstrap address on the same Transport, the pools' control connections are the overlapping ones
+	OvVia string `json:"ovvia"`
 }
 
 const topic = "t"
@@ -60,14 +77,95 @@ type run struct {
 	net  *fakenet.Net
 	cl   *fakekafka.Cluster
 	mu   sync.Mutex
-	last int   // fakenet ID of the connection dialled last
-	ids  []int // connections in dial order
+	last int                   // fakenet ID of the connection dialled last
+	ids  []int                 // connections in dial order
+	addr map[int]string        // address each connection was dialled to
+	cli  map[int]*fakenet.Conn // client ends
+	ov   *overlap              // overlapping authentications (nil otherwise)
 }
 
 // tap is the client end of a connection: every write attempt is journalled before the bytes are delivered.
 type tap struct {
 	*fakenet.Conn
 	r *run
+	// piecewise delivery (Scenario.Deliv)
+	rmu    sync.Mutex
+	pend   []byte // bytes taken from the connection, not yet handed to the client
+	off    int    // bytes of the current message already handed over (the 4-byte length prefix included)
+	size   int    // length announced by the prefix of the current message
+	broken bool   // the stream is not a sequence of length-prefixed messages: no more splitting
+}
+
+// Read hands the broker's bytes to the client in the pieces chosen by the scenario.  Raw SASL tokens and response frames
+// are both a 4-byte length followed by that many bytes, so the same boundaries apply to both.  Nothing is delayed: a piece
+// is what one Read returns, as with a TCP stream that was segmented on its way.
+func (t *tap) Read(p []byte) (int, error) {
+	sc := t.r.sc
+	if sc.Deliv == "" || sc.Deliv == "whole" || len(p) == 0 {
+		return t.Conn.Read(p)
+	}
+	t.rmu.Lock()
+	defer t.rmu.Unlock()
+	if t.broken && len(t.pend) == 0 {
+		return t.Conn.Read(p)
+	}
+	need := 1
+	if sc.Deliv != "pieces" && t.off == 0 && !t.broken {
+		need = 4 // the length prefix says where the pieces of this message end
+	}
+	var rerr error
+	for len(t.pend) < need && rerr == nil {
+		buf := make([]byte, 32<<10)
+		n, err := t.Conn.Read(buf)
+		t.pend = append(t.pend, buf[:n]...)
+		rerr = err
+	}
+	if len(t.pend) == 0 {
+		return 0, rerr
+	}
+	limit := len(t.pend)
+	switch {
+	case t.broken:
+	case sc.Deliv == "pieces":
+		limit = sc.DelivK
+		if limit < 1 {
+			limit = 1
+		}
+	default:
+		if t.off == 0 {
+			if len(t.pend) < 4 {
+				t.broken = true // an error cut the stream inside a length prefix: hand over what is there
+				break
+			}
+			t.size = int(int32(uint32(t.pend[0])<<24 | uint32(t.pend[1])<<16 | uint32(t.pend[2])<<8 | uint32(t.pend[3])))
+			if t.size < 0 || t.size > 64<<20 {
+				t.broken = true
+				break
+			}
+		}
+		end := 4 + t.size
+		cut := 4 // prefix: the length prefix alone
+		if sc.Deliv == "halves" {
+			cut = 4 + t.size/2
+		}
+		if t.off < cut {
+			limit = cut - t.off
+		} else {
+			limit = end - t.off
+		}
+	}
+	if limit > len(t.pend) {
+		limit = len(t.pend)
+	}
+	n := copy(p, t.pend[:limit])
+	t.pend = t.pend[n:]
+	if !t.broken && sc.Deliv != "pieces" {
+		t.off += n
+		if t.off >= 4+t.size {
+			t.off = 0
+		}
+	}
+	return n, nil
 }
 
 func (t *tap) Write(p []byte) (int, error) {
@@ -82,11 +180,19 @@ func (r *run) dial(ctx context.Context, network, address string) (net.Conn, erro
 	}
 	fc := c.(*fakenet.Conn)
 	id := fc.ID
-	fc.OnClose = func() { r.rec.Emit(trace.Event{"ev": "closed", "conn": id}) }
+	fc.OnClose = func() {
+		r.rec.Emit(trace.Event{"ev": "closed", "conn": id})
+		r.ov.onClosed(id)
+	}
 	r.mu.Lock()
 	r.last = id
 	r.ids = append(r.ids, id)
+	if r.addr == nil {
+		r.addr, r.cli = map[int]string{}, map[int]*fakenet.Conn{}
+	}
+	r.addr[id], r.cli[id] = address, fc
 	r.mu.Unlock()
+	r.ov.onDial(id, address)
 	r.rec.Emit(trace.Event{"ev": "open", "conn": id, "addr": address})
 	return &tap{Conn: fc, r: r}, nil
 }
@@ -115,6 +221,16 @@ func mechanism(sc *Scenario) (sasl.Mechanism, error) {
 	return nil, fmt.Errorf("unknown mechanism %q", sc.Mech)
 }
 
+func delivOf(sc *Scenario) string {
+	switch sc.Deliv {
+	case "", "whole":
+		return "whole"
+	case "pieces":
+		return fmt.Sprintf("pieces/%d", sc.DelivK)
+	}
+	return sc.Deliv
+}
+
 func errClass(err error) string {
 	if err == nil {
 		return ""
@@ -129,8 +245,12 @@ func errClass(err error) string {
 func (r *run) setup() {
 	sc := r.sc
 	r.net = fakenet.NewNet()
-	r.cl = fakekafka.NewCluster(r.net, 2)
-	r.cl.AddTopic(topic, 2) // partition 0 on broker 1, partition 1 on broker 2
+	nb := 2
+	if sc.OvN > nb {
+		nb = sc.OvN // overlapping authentications: one broker per connection
+	}
+	r.cl = fakekafka.NewCluster(r.net, nb)
+	r.cl.AddTopic(topic, nb) // partition 0 on broker 1, partition 1 on broker 2, ...
 	if sc.HsAdv == "" {
 		sc.HsAdv = map[int]string{0: "v0", 1: "v0v1"}[sc.HvMax]
 	}
@@ -186,6 +306,7 @@ func (r *run) setup() {
 	cfg.OnEvent = func(e fakekafka.SaslEvent) {
 		code, _ := e.Info["code"].(int)
 		r.rec.Emit(trace.Event{"ev": "srv", "conn": e.ConnID, "what": e.Ev, "round": e.Round, "broker": e.Broker, "code": code})
+		r.ov.onVerdict(e.ConnID, e.Round) // may hold the answer back (the verdict is journalled, its bytes are not written yet)
 	}
 	r.cl.Sasl = cfg
 	r.cl.OnJournal = func(e fakekafka.JournalEntry) {
@@ -207,6 +328,7 @@ func (r *run) setup() {
 			ev["api"] = name
 		}
 		r.rec.Emit(ev)
+		r.ov.onRequest(e.ConnID, fmt.Sprint(ev["api"]))
 		if pre, _ := e.Info["preauth"].(bool); pre {
 			// a request other than ApiVersions/SaslHandshake/SaslAuthenticate from an unauthenticated client: the broker closes
 			r.rec.Emit(trace.Event{"ev": "srv", "conn": e.ConnID, "what": "preauthclose", "round": 0, "broker": e.Broker})
@@ -325,12 +447,17 @@ func (r *run) runTransport(m sasl.Mechanism) {
 // connection's events in recorder order and an "end" line with the census.
 func Run(sc *Scenario) []trace.Event {
 	r := &run{sc: sc, rec: trace.New()}
+	if sc.Entry == "dialovl" || sc.Entry == "transportovl" {
+		r.ov = newOverlap(r)
+	}
 	r.setup()
 	m, err := mechanism(sc)
 	if err != nil {
 		return []trace.Event{{"ev": "setuperror", "id": sc.ID, "err": err.Error()}}
 	}
-	if strings.HasPrefix(sc.Entry, "transport") {
+	if sc.Entry == "dialovl" || sc.Entry == "transportovl" {
+		r.runOverlap(m)
+	} else if strings.HasPrefix(sc.Entry, "transport") {
 		r.runTransport(m)
 	} else {
 		r.runDialer(m)
@@ -368,7 +495,7 @@ func Run(sc *Scenario) []trace.Event {
 		}
 		out = append(out, trace.Event{"ev": "cfg", "id": fmt.Sprintf("%s#%d", sc.ID, k+1), "scenario": sc.ID, "conn": id,
 			"mech": sc.Mech, "hsadv": sc.HsAdv, "authadv": sc.AuthAdv, "creds": sc.Creds, "fkind": fk, "fstep": fs, "fcode": fc, "attr": attr[id],
-			"entry": sc.Entry, "class": sc.Class, "nconns": len(ids)})
+			"entry": sc.Entry, "class": sc.Class, "nconns": len(ids), "deliv": delivOf(sc), "ov": r.ov.describe(id)})
 		for _, e := range evs {
 			if c, _ := e["conn"].(int); c == id {
 				out = append(out, e)
